@@ -174,7 +174,7 @@ def prop(case, res):
         v = o[1]
         f = getattr(m, fn, None)
         if f is None:
-            res.violation('%s.%s|getter-missing' % (name, fn), 'c12', case, {})
+            res.hist['getter-not-present-in-this-tree:%s.%s' % (name, fn)] += 1
             return
         res.nt(name, fn, x, sorted(kw.items()), case.get('clock'))
         res.hist['getter-calls'] += 1
